@@ -52,6 +52,9 @@
 (*   Step_C24_End   ChainNodes.Step_C24_Payout / ChainApps.Step_C24_EndBlock *)
 (*                  each assume that nobody else is paid at EndBlock; here   *)
 (*                  nodes AND applications mature in the same EndBlock       *)
+(*   AnteClassOf    a signature without a public key is a recovered panic    *)
+(*                  once AppTransfer is active (ChainAuth models the account- *)
+(*                  key branch as always reachable)                           *)
 (*   Inv_C28_Relays holds for records staked under the current relay         *)
 (*                  parameters (a governance change does not recompute the   *)
 (*                  allowance of existing applications)                      *)
@@ -65,6 +68,10 @@ K == INSTANCE ChainClaims
 
 NodeKinds  == {"node_stake", "node_unstake", "node_unjail"}
 AllKinds   == AuthKinds \cup NodeKinds \cup A!AppsKinds \cup K!ClaimsKinds \cup G!GovKinds
+
+\* TLC re-evaluates a LET definition at every use.  Where an intermediate result is expensive and
+\* used more than once it is bound ONCE by enumerating a singleton set:  The({F(x) : x \in {expr}}).
+The(S) == CHOOSE x \in S : TRUE
 
 \* the configuration record the fragments read
 CfgOf(c, s) == [c EXCEPT !.featMem = s.featMem, !.acl = s.acl, !.daoOwner = s.daoOwner]
@@ -111,22 +118,33 @@ PocketActivate(s, h) ==
 \* BeginBlock: nodes (parameter activation; fees, proposer, signatures, evidence), apps
 \* (nothing), pocketcore (parameter activation, claim expiry), gov (ACL extension).
 \* Result: [s, c].
-BeginBlock(s, c, h, t, proposer, votes, evidence) ==
-    LET a  == NodesActivate(s, c, h)
-        s1 == N!NodesBeginBlock(a.s, CfgOf(a.c, a.s), h, t, proposer, votes, evidence)
+BeginBlock2(a, h, t, proposer, votes, evidence) ==
+    LET s1 == N!NodesBeginBlock(a.s, CfgOf(a.c, a.s), h, t, proposer, votes, evidence)
         s2 == K!ExpireClaims(PocketActivate(s1, h), h)
         s3 == G!GovBeginBlock(s2, h)
     IN [s |-> WithActive(s3, h), c |-> a.c]
+BeginBlock(s, c, h, t, proposer, votes, evidence) ==
+    The({BeginBlock2(a, h, t, proposer, votes, evidence) : a \in {NodesActivate(s, c, h)}})
 
 -----------------------------------------------------------------------------
 \* DeliverTx
 
 \* decode / duplicate cache / ValidateBasic / ante: the fragment that owns the kind knows its
 \* stateless validation and its extra signers; cc = CfgOf(c, s)
-AnteClassOf(s, cc, tx, h) ==
+FragmentAnteClass(s, cc, tx, h) ==
     IF tx.kind \in A!AppsKinds THEN A!AppsAnteClass(s, cc, tx, h)
     ELSE IF tx.kind \in G!GovKinds THEN G!GovAnteClass(s, cc, tx, h)
     ELSE AnteClass(s, cc, tx, h)
+\* Correction of ChainAuth.AnteClass (found by the whole-chain traces): once AppTransfer is active,
+\* ValidateTransaction computes stdTx.Signature.Address() for EVERY transaction before it looks
+\* for the key; a signature that carries no public key makes that a nil dereference, which
+\* baseapp.runTx recovers: the transaction is rejected (sdk/1) and nothing changes.  The branch
+\* "public key taken from the signer's account" is reachable only before that feature.
+AnteClassOf(s, cc, tx, h) ==
+    LET base == FragmentAnteClass(s, cc, tx, h) IN
+    IF base \in {"decode", "dup", "basic", "txbasic", "memo"} THEN base
+    ELSE IF ~tx.hasPK /\ Active(cc, "AppTransfer", h) THEN "nopk-panic"
+    ELSE base
 
 \* x/pocketcore handleProofMsg.  The replay-attack branch calls the NODES keeper's
 \* BurnForChallenge(total * ReplayAttackBurnMultiplier): removeValidatorTokens re-indexes the
@@ -153,22 +171,22 @@ MsgHandle(s1, cc, tx, h, t, orc, StAt(_), CfgAt(_)) ==
       [] tx.kind \in G!GovKinds -> G!GovHandle(s1, tx)
 
 \* [class, ok, s, c]
+DeliverTx3(s, c, tx, h, cls, r) ==
+    [class |-> cls, ok |-> r.ok, s |-> WithActive(r.st, h),
+     c |-> IF tx.kind = "change_param" /\ r.ok /\ tx.valid THEN ApplyTyped(c, tx.typed) ELSE c]
+DeliverTx2(s, c, tx, h, t, orc, StAt(_), CfgAt(_), cc, cls) ==
+    IF cls # "ok" THEN [class |-> cls, ok |-> FALSE, s |-> s, c |-> c]
+    ELSE The({DeliverTx3(s, c, tx, h, cls, r) : r \in {MsgHandle(ChargeFee(s, tx), cc, tx, h, t, orc, StAt, CfgAt)}})
 DeliverTx(s, c, tx, h, t, orc, StAt(_), CfgAt(_)) ==
-    LET cc  == CfgOf(c, s)
-        cls == AnteClassOf(s, cc, tx, h)
-    IN IF cls # "ok" THEN [class |-> cls, ok |-> FALSE, s |-> s, c |-> c]
-       ELSE LET r == MsgHandle(ChargeFee(s, tx), cc, tx, h, t, orc, StAt, CfgAt) IN
-            [class |-> cls, ok |-> r.ok, s |-> WithActive(r.st, h),
-             c |-> IF tx.kind = "change_param" /\ r.ok /\ tx.valid THEN ApplyTyped(c, tx.typed) ELSE c]
+    The({The({DeliverTx2(s, c, tx, h, t, orc, StAt, CfgAt, cc, cls) : cls \in {AnteClassOf(s, cc, tx, h)}}) : cc \in {CfgOf(c, s)}})
 
 -----------------------------------------------------------------------------
 \* EndBlock: nodes (jailed counter, release of waiting validators, validator updates,
 \* maturation), apps (maturation); pocketcore and gov do nothing to consensus state.
 \* Result: [s, ups].
+EndBlock2(cc, r, h, t) == [s |-> A!AppsEndBlock(r.s, cc, h, t), ups |-> r.ups]
 EndBlock(s, c, h, t) ==
-    LET cc == CfgOf(c, s)
-        r  == N!NodesEndBlock(s, cc, h, t)
-    IN [s |-> A!AppsEndBlock(r.s, cc, h, t), ups |-> r.ups]
+    The({The({EndBlock2(cc, r, h, t) : r \in {N!NodesEndBlock(s, cc, h, t)}}) : cc \in {CfgOf(c, s)}})
 
 \* process restart (app/app.go NewPocketCoreApp): the activation map is rebuilt from the stored upgrade
 RestartOutcomes(s, h) == {WithActive(o, h) : o \in G!RestartOutcomes(s)}
